@@ -90,7 +90,8 @@ def make_twin(rep, N, D, body):
 
 
 def obligations(tier, seed):
-    obs = fp_obligations(tier, seed)
+    from props.internal import c04_internal
+    obs = fp_obligations(tier, seed) + c04_internal(tier)
     for k, (rep, N, D) in enumerate(instances(tier, seed)):
         ct = G.ctype(rep)
         pre, ws, tag = wrappers(rep, N, D)
